@@ -207,7 +207,38 @@ def run(chk, facts, tier, only=None):
         chk.include(c15, "C15.R1", "C01.R8", facts)     # the derive macro orders fields by the same hash the runtime writes into the type table
         chk.include(c03, "C03.R2", "C01.R9", facts)     # type-table references are written the way the header parser reads them (tables of any size decode)
 
-    for rid, desc, fn in (("C01.R1", "type table and value stream use one field order (derive + hand-written impls)", r1),
+    def r10():
+        """The element deserializer of the primitive-vector fast path must treat newtype structs as the main deserializer does
+        (`deserialize_newtype_struct` -> `visit_newtype_struct`): serde's own value deserializers (`U32Deserializer` …) forward
+        `deserialize_newtype_struct` to `deserialize_any`, i.e. call `visit_u32` on a visitor that only implements `visit_newtype_struct`,
+        so `Vec<Id>` with `struct Id(u32)` — whose Candid type is `vec nat32` and which therefore takes the fast path — encodes but does
+        not decode."""
+        b = c.body(r"PrimitiveVecAccess<'de> as serde_core::de::SeqAccess<'de>>::next_element_seed$")
+        chk.analysed(b.key)
+        main_nt = c.fn(r"^<&(?:'a )?mut candid::de::Deserializer<'de> as serde_core::de::Deserializer<'de>>::deserialize_newtype_struct$")
+        transparent = any(x.get("k") == "mcall" and x["m"] == "visit_newtype_struct" for x in walk(main_nt["body"]))
+        if not transparent:
+            chk.ok("fast-path-element:newtype-transparent", "the main deserializer does not unwrap newtype structs either", nontrivial=False)
+            return
+        bare = []
+        n = 0
+        for bi, t, cal in b.call_sites():
+            if cal and cal.endswith("DeserializeSeed::deserialize"):
+                n += 1
+                ga = ((t.get("f") or {}).get("k") or {}).get("ga") or []
+                d = ga[-1] if ga else ""
+                if re.search(r"serde(_core)?::de::value::\w+Deserializer<", d):
+                    bare.append((re.search(r"(\w+Deserializer)<", d) or [None, d])[1])
+        chk.floor("element dispatches of the primitive-vector fast path", n, 11)
+        chk.expect(not bare, "fast-path-element:newtype-transparent",
+                   f"PrimitiveVecAccess::next_element_seed hands serde's plain value deserializers ({', '.join(sorted(set(bare))[:4])}, …) to the element's "
+                   f"Deserialize impl; they answer `deserialize_newtype_struct` with `visit_<prim>`, which a derived newtype visitor does not implement: "
+                   f"`Vec<Id>` with `#[derive(CandidType, Deserialize)] struct Id(u32)` encodes as `vec nat32` and fails to decode (the slow path, taken for "
+                   f"`Vec<Option<Id>>` or a single `Id`, decodes it) — the native round trip is not the identity for that type",
+                   where=f"{b.span['file']}:{b.span['lo']}", ok_detail="elements are dispatched through a newtype-transparent deserializer")
+
+    for rid, desc, fn in (("C01.R10", "the primitive-vector fast path decodes newtype elements like the element-wise path", r10),
+                          ("C01.R1", "type table and value stream use one field order (derive + hand-written impls)", r1),
                           ("C01.R2", "decoding context re-established for every component; Drop clears the flags", r2),
                           ("C01.R3", "primitive matrix: bulk writer, element writer and decoder agree", r3),
                           ("C01.R4", "type-memo protocol and per-builder reset", r4)):
